@@ -260,7 +260,7 @@ impl Property for C06 {
     fn cases(&self, cfg: &Cfg) -> u64 {
         // exhaustive part: 4369 strings in blocks of 64, names block, then random blocks
         let ex = (4369 + BLOCK - 1) / BLOCK;
-        ex + 1 + cfg.tier.pick(200, 40_000)
+        ex + 1 + cfg.tier.pick(3_000, 40_000)
     }
     fn run_case(&self, cfg: &Cfg, i: u64, acc: &mut Acc) {
         let mut ck = Checker::new();
